@@ -40,6 +40,27 @@ def castIO {σ : Type*} {p p' m m' : Nat} (hp : p = p') (hm : m = m')
     (G : SS σ (Fin m) (Fin p) K) : SS σ (Fin m') (Fin p') K :=
   G.select (Fin.cast hp.symm) (Fin.cast hm.symm)
 
+/-- inputs `Fin (c + d)` and outputs `Fin (e + f)` partitioned (first block first). -/
+def splitIO {σ : Type*} {c d e f : Nat} (G : SS σ (Fin (c + d)) (Fin (e + f)) K) :
+    SS σ (Fin c ⊕ Fin d) (Fin e ⊕ Fin f) K :=
+  G.select finSumFinEquiv finSumFinEquiv
+
+/-- the entries of a square matrix over `Fin a ⊕ Fin b`, computed once (an `Array`, not a
+closure): the executable model looks the certified inverse up instead of re-evaluating
+determinants on every access.  `ofTable_table`: this is the identity. -/
+@[noinline] def table {a b : Nat} (M : Matrix (Fin a ⊕ Fin b) (Fin a ⊕ Fin b) K) :
+    Array (Array K) :=
+  Array.ofFn fun i : Fin (a + b) => Array.ofFn fun j : Fin (a + b) =>
+    M (finSumFinEquiv.symm i) (finSumFinEquiv.symm j)
+
+def ofTable {a b : Nat} (t : Array (Array K)) : Matrix (Fin a ⊕ Fin b) (Fin a ⊕ Fin b) K :=
+  fun i j => ((t[(finSumFinEquiv i).val]?).bind (fun r => r[(finSumFinEquiv j).val]?)).getD 0
+
+theorem ofTable_table {a b : Nat} (M : Matrix (Fin a ⊕ Fin b) (Fin a ⊕ Fin b) K) :
+    ofTable (table M) = M := by
+  funext i j
+  simp [ofTable, table]
+
 end SS
 
 namespace DSS
@@ -164,6 +185,32 @@ def feedbackSS (G H : DSS K) (sign : K) : Except Err (DSS K) :=
     else pure ⟨G.n + H.n, G.p, G.m, (SS.feedback G.sys H' sign (SS.invQ F)).flatS, dt⟩
   else .error .shape
 
+/-- the upper system of `lft` partitioned as the code slices it: inputs `[:m-nu] | [m-nu:]`,
+outputs `[:p-ny] | [p-ny:]`. -/
+def lftUpper (G : DSS K) (nu ny : Nat) (hu : nu ≤ G.m) (hy : ny ≤ G.p) :
+    SS (Fin G.n) (Fin (G.m - nu) ⊕ Fin nu) (Fin (G.p - ny) ⊕ Fin ny) K :=
+  (G.sys.castIO (p' := (G.p - ny) + ny) (m' := (G.m - nu) + nu) (by omega) (by omega)).splitIO
+
+/-- the lower system of `lft`: inputs `[:ny] | [ny:]`, outputs `[:nu] | [nu:]`. -/
+def lftLower (H : DSS K) (nu ny : Nat) (hu : nu ≤ H.p) (hy : ny ≤ H.m) :
+    SS (Fin H.n) (Fin ny ⊕ Fin (H.m - ny)) (Fin nu ⊕ Fin (H.p - nu)) K :=
+  (H.sys.castIO (p' := nu + (H.p - nu)) (m' := ny + (H.m - ny)) (by omega) (by omega)).splitIO
+
+/-- `lft` for a resolved partition on which the operation is defined (`nu` control inputs of
+`G` = first `nu` outputs of `H`, `ny` measured outputs of `G` = first `ny` inputs of `H`) and
+the common timebase `dt`: well-posedness is `det F ≠ 0` (the code: `matrix_rank(F) = ny + nu`),
+the inverse is the certified `det⁻¹ • adjugate` (tabulated once). -/
+def lftSS (G H : DSS K) (nu ny : Nat) (h : nu ≤ G.m ∧ nu ≤ H.p ∧ ny ≤ G.p ∧ ny ≤ H.m) (dt : Dt) :
+    Except Err (DSS K) :=
+  let G' := lftUpper G nu ny h.1 h.2.2.1
+  let H' := lftLower H nu ny h.2.1 h.2.2.2
+  let F := SS.lftF G' H'
+  if F.det = 0 then .error .illPosed
+  else
+    let t := SS.table (SS.invQ F)
+    pure ⟨G.n + H.n, (G.p - ny) + (H.p - nu), (G.m - nu) + (H.m - ny),
+      (SS.lft G' H' (SS.ofTable t)).flatS.flatIO, dt⟩
+
 /-- `sys[rows, cols]` for index lists already resolved and range-checked. -/
 def select (G : DSS K) (rows cols : List Nat) : Except Err (DSS K) :=
   if h : (∀ r ∈ rows, r < G.p) ∧ (∀ c ∈ cols, c < G.m) then
@@ -236,6 +283,19 @@ def rtruediv (G : DSS K) (x : SOperand K) : Except Err (DSS K) := do
 /-- `self.feedback(other, sign)`. -/
 def feedback (G : DSS K) (x : SOperand K) (sign : K) : Except Err (DSS K) :=
   feedbackSS G (toSys x) sign
+
+/-- `self.lft(other, nu, ny)`: `-1` means the maximal value; then the common timebase; the
+partition must be one for which the slices of the code have the sizes `nu` / `ny` (the code has
+`# dimension check  # TODO`: for other values NumPy's slicing / `np.block` / `np.eye` raise), then
+`lftSS`. -/
+def lft (G : DSS K) (x : SOperand K) (nu ny : Int) : Except Err (DSS K) := do
+  let H := toSys x
+  let ny' : Int := if ny = -1 then min (H.m : Int) (G.p : Int) else ny
+  let nu' : Int := if nu = -1 then min (H.p : Int) (G.m : Int) else nu
+  let dt ← common G.dt H.dt
+  if h : 0 ≤ nu' ∧ 0 ≤ ny' ∧ nu'.toNat ≤ G.m ∧ nu'.toNat ≤ H.p ∧ ny'.toNat ≤ G.p ∧ ny'.toNat ≤ H.m
+  then lftSS G H nu'.toNat ny'.toNat h.2.2 dt
+  else .error .shape
 
 end DSS
 
